@@ -18,8 +18,10 @@ for p in sorted(glob.glob(os.path.join(V, "seeded", "*", "meta.json"))):
     n += 1
     det += res["exit"] == 1
     hist = m.get("history", "detected on the first run")
+    if m.get("obsolete"):
+        hist = "OBSOLETE: " + m["obsolete"] + " " + (hist if hist != "detected on the first run" else "")
     esc = lambda t: str(t).replace("|", "\\|").replace("\n", " ")
-    rows.append(f"| {name} | {esc(m.get('summary',''))[:260]} | {esc(m.get('needs',''))[:200]} | `{esc(s0)}` | {esc(hist)[:220]} |")
+    rows.append(f"| {name} | {esc(m.get('summary',''))[:260]} | {esc(m.get('needs',''))[:200]} | `{esc(s0)}` | {esc(hist)[:300]} |")
 rows.append("")
 rows.append(f"{det} of {n} seeded changes are detected by the quick tier of the property's check as committed "
             f"({sum(1 for p in glob.glob(os.path.join(V,'seeded','*','meta.json')) if 'MISSED' in json.load(open(p)).get('history',''))} of them only after the check was strengthened, as noted in the history column).")
